@@ -322,3 +322,38 @@ def gen_malformed(rng, i, p_wellformed=0.1, allow_random=True):
     k = rng.sample(kinds, rng.randint(2, len(kinds)))
     data, recs = F.apply_random(data, o, rng, k, rng.randint(1, 3))
     return inp, data, recs, "multi"
+
+
+PUT_KINDS = ("size", "count", "value", "boundary", "selector_other_arm", "selector_invalid", "tag", "rc", "attr", "cc")
+
+
+def shrink_faults(case, ids=("main",)):
+    """fault-trace minimisation: re-apply every proper subset (all-but-one, then singles) of the in-place faults
+    to the original bytes.  Only for faults that overwrite a field in place (offsets do not shift)."""
+    faults = case.get("faults") or []
+    orig = (case.get("input") or {}).get("orig")
+    if len(faults) < 2 or not orig or not all(f.get("kind") in PUT_KINDS and "new" in f and "off" in f for f in faults):
+        return
+    L = layout()
+    subsets = [[f for j, f in enumerate(faults) if j != k] for k in range(len(faults))]
+    if len(faults) > 2:
+        subsets += [[f] for f in faults]
+    for sub in subsets:
+        b = bytearray(bytes.fromhex(orig))
+        ok = True
+        for f in sub:
+            t = L.types.get(f["type"])
+            if t is None or t["kind"] != "prim":
+                ok = False
+                break
+            try:
+                b[f["off"]:f["off"] + t["size"]] = int(f["new"]).to_bytes(t["size"], "big", signed=t["signed"])
+            except OverflowError:
+                ok = False
+                break
+        if not ok:
+            continue
+        c = dict(case)
+        c["faults"] = sub
+        c["tasks"] = [dict(t, data=bytes(b).hex()) if t["id"] in ids else t for t in case["tasks"]]
+        yield c
